@@ -400,6 +400,10 @@ func (vr *variableResolver) resolve(ctx *ExecutionContext) (*Value, error) {
 		// into the execution context (e.g. in a for-loop)
 		if current.Type() == typeOfValuePtr {
 			tmpValue := current.Interface().(*Value)
+			if tmpValue == nil {
+				// A nil *Value (e.g. put into the context by the caller) is a nil value
+				return AsValue(nil), nil
+			}
 			current = tmpValue.val
 			isSafe = tmpValue.safe
 		}
@@ -514,9 +518,12 @@ func (vr *variableResolver) resolve(ctx *ExecutionContext) (*Value, error) {
 			if rv.Type() != typeOfValuePtr {
 				current = reflect.ValueOf(rv.Interface())
 			} else {
-				// Return the function call value
-				current = rv.Interface().(*Value).val
-				isSafe = rv.Interface().(*Value).safe
+				// Return the function call value (a nil *Value is a nil value)
+				current = reflect.Value{}
+				if retValue := rv.Interface().(*Value); retValue != nil {
+					current = retValue.val
+					isSafe = retValue.safe
+				}
 			}
 		}
 
